@@ -19,11 +19,12 @@ type pubParams struct {
 	Yield     bool // random yields at hook points
 	SettleP   float64
 	BigP      float64
-	RestartAt int    // publish index at which to close and adopt (0 = never)
-	Snaps     bool   // take stop-point snapshots
-	Prelude   [3]int // completed publishes per level before the episode (wrap positioning)
-	NoClose   bool   // leave the client open (the caller closes)
-	Restarts  int    // stops with AdoptSession on the same Persistence after the publish phase
+	RestartAt int     // publish index at which to close and adopt (0 = never)
+	Snaps     bool    // take stop-point snapshots
+	Prelude   [3]int  // completed publishes per level before the episode (wrap positioning)
+	NoClose   bool    // leave the client open (the caller closes)
+	Restarts  int     // stops with AdoptSession on the same Persistence after the publish phase
+	HoldP     float64 // when non-zero: probability that the broker withholds an acknowledgement
 }
 
 func sizeOf(c *run.Ctx, bigP float64) int {
@@ -59,6 +60,9 @@ func runPubWorkload(c *run.Ctx, pp pubParams) (*Episode, *pubAnalysis, []*sim.Pu
 	ep := newEpisode(c)
 	defer ep.W.Shutdown()
 	faultMix(c, ep.F, pp.Budget)
+	if pp.HoldP != 0 {
+		ep.F.PHold = pp.HoldP
+	}
 	ep.Cfg.AtLeastOnceMax = []int{1, 2, 3, 8, 16384}[c.Rng.Intn(5)]
 	ep.Cfg.ExactlyOnceMax = []int{1, 2, 3, 8, 16384}[c.Rng.Intn(5)]
 	if pp.Yield {
